@@ -137,7 +137,10 @@ def length_codecs(p, fname):
             continue
         if e.kind == 'ext-call' and e.data['callee'] in ('struct.pack', 'struct.unpack') and e.data['args']:
             f0 = it.py_key(it.resolve(e.data['args'][0]))
-            out.add('be-u32' if f0 in BE_U32_FORMATS else f'struct {f0!r}')
+            import re as _re
+            # a record header unpacked in one go ('>I4s16s'): its first field is the length prefix
+            first_be_u32 = isinstance(f0, (str, bytes)) and _re.fullmatch(r'[>!][IL](\d*[sxcB])+', f0 if isinstance(f0, str) else f0.decode('latin_1'))
+            out.add('be-u32' if f0 in BE_U32_FORMATS or first_be_u32 else f'struct {f0!r}')
         elif e.kind == 'ext-call' and e.data['callee'] == 'int.from_bytes':
             a = e.data['args']
             order = it.py_key(a[1]) if len(a) > 1 else it.py_key(e.data['kwargs'].get('byteorder'))
